@@ -1391,6 +1391,141 @@ def part_facts(part):
     return res
 
 
+
+def mpart_tokens(part):
+    """the part as MEIExporter reads it (see Model/MeiWrite.lean); None when the part uses something the model leaves out"""
+    import partitura.score as S
+    from partitura.utils import fifths_mode_to_key_name
+
+    def ks_tok(k, first_letter):
+        pn = fifths_mode_to_key_name(k.fifths, k.mode).lower()
+        return "%d %d %s %s" % (k.start.t, k.fifths, "-" if k.mode is None else W.s(k.mode), W.s(pn[0] if first_letter else pn))
+
+    for n in part.iter_all(S.GenericNote, include_subclasses=True):
+        sd = n.symbolic_duration or {}
+        if n.id is None or ("dots" in sd and not sd["dots"]) or n.staff is None or n.voice is None:
+            return None
+    clefs = ["%d %s %d" % (c.staff, W.s(c.sign), c.line) for c in part.iter_all(S.Clef, start=0, end=1)]
+    keys0 = list(part.iter_all(S.KeySignature, start=0, end=1))
+    ts0 = list(part.iter_all(S.TimeSignature, start=0, end=1))
+    ms = []
+    for m in part.measures:
+        a, b = m.start.t, m.end.t
+        notes = ["%s %d %s" % (W.s(n.id), n.start.t, _xnote(n, S))
+                 for n in part.iter_all(S.GenericNote, start=a, end=b, include_subclasses=True)]
+        tups = []
+        for t in part.iter_all(S.Tuplet, start=a, end=b):
+            sn, en = t.start_note, t.end_note
+            sd = sn.symbolic_duration or {}
+            ratio = "%d %d" % (sd["actual_notes"], sd["normal_notes"]) if "actual_notes" in sd and "normal_notes" in sd else "-"
+            tups.append("%s %s %d %d %d %d %s" % (W.s(sn.id), W.s(en.id), sn.start.t, en.start.t, en.end.t,
+                                                   1 if (sn.voice == en.voice and sn.staff == en.staff) else 0, ratio))
+        keys = [ks_tok(k, False) for k in part.iter_all(S.KeySignature, start=a, end=b)]
+        meters = ["%d %d %d" % (t.start.t, t.beats, t.beat_type) for t in part.iter_all(S.TimeSignature, start=a, end=b)]
+        ms.append("%d %d %d %d %s %d %s %d %s %d %s" % (m.number, a, b, len(notes), " ".join(notes), len(tups), " ".join(tups),
+                                                         len(keys), " ".join(keys), len(meters), " ".join(meters)))
+    toks = [W.s(part.id if part.id is not None else "Untitled"), "%d" % int(part._quarter_durations[0]), "%d" % part.number_of_staves,
+            "%d" % len(clefs)] + clefs + [ks_tok(keys0[0], True) if keys0 else "-",
+            "%d %d" % (ts0[0].beats, ts0[0].beat_type) if ts0 else "-", "%d" % len(ms)] + ms
+    return " ".join(t for t in toks if t != "")
+
+
+MEI_TYPE_NUM = {"long": F(1, 4), "breve": F(1, 2), "whole": F(1), "half": F(2), "quarter": F(4), "eighth": F(8), "16th": F(16),
+                "32nd": F(32), "64th": F(64), "128th": F(128), "256th": F(256), "h": F(2), "e": F(8), "q": F(4)}
+
+
+def py_mei_exportable(part):
+    """the Exportable predicate of Model/MeiWrite.lean, restated in plain Python on the real objects"""
+    import partitura.score as S
+    from collections import Counter as _C
+
+    divs = int(part._quarter_durations[0])
+    nst = part.number_of_staves
+    if divs <= 0 or nst <= 0 or not list(part.iter_all(S.TimeSignature, start=0, end=1)):
+        return False
+    t = 0
+    for m in part.measures:
+        if m.start.t != t:
+            return False
+        t = m.end.t
+    for m in part.measures:
+        a, b = m.start.t, m.end.t
+        notes = list(part.iter_all(S.GenericNote, start=a, end=b, include_subclasses=True))
+        if not notes:
+            return False
+        for n in notes:
+            if not (1 <= (n.staff or 0) <= nst):
+                return False
+        ends = []
+        staffs_used = sorted(set(n.staff for n in notes))
+        for s_ in range(1, nst + 1):
+            if s_ not in staffs_used:
+                continue
+            for v in sorted(set(n.voice for n in notes if n.staff == s_)):
+                vn = [n for n in notes if n.voice == v]
+                cnt = _C(n.staff for n in vn)
+                maj = min(st for st in cnt if cnt[st] == max(cnt.values()))
+                if maj != s_:
+                    ends.append(a)
+                    continue
+                # the items of the layer
+                items = []
+                for on in sorted(set(n.start.t for n in vn)):
+                    grp = [n for n in vn if n.start.t == on]
+                    items += [[g] for g in grp if isinstance(g, S.GraceNote)]
+                    plain = [g for g in grp if not isinstance(g, S.GraceNote)]
+                    if plain:
+                        items.append(plain)
+                ctx = [None] * len(items)
+                for tp in part.iter_all(S.Tuplet, start=a, end=b):
+                    sn, en = tp.start_note, tp.end_note
+                    if sn.start.t < a or en.end.t > b or sn.start.t > en.start.t or sn.voice != en.voice or sn.staff != en.staff:
+                        continue
+                    if sn.voice != v:
+                        continue
+                    i = next((k for k, it in enumerate(items) if any(x is sn for x in it)), None)
+                    j = next((k for k, it in enumerate(items) if any(x is en for x in it)), None)
+                    sd = sn.symbolic_duration or {}
+                    if i is None or j is None or i > j or "actual_notes" not in sd or "normal_notes" not in sd:
+                        return False
+                    if any(ctx[k] is not None for k in range(i, j + 1)) or not sd["actual_notes"]:
+                        return False
+                    for k in range(i, j + 1):
+                        ctx[k] = (sd["actual_notes"], sd["normal_notes"])
+                cur = a
+                for it, cx in zip(items, ctx):
+                    for n in it:
+                        sd = n.symbolic_duration or {}
+                        num = MEI_TYPE_NUM.get(sd.get("type"))
+                        if num is None or n.start.t != cur:
+                            return False
+                        val = F(4) / num * (2 - F(1, 2 ** (sd.get("dots", 0) or 0)))
+                        if cx:
+                            val = val * cx[1] / cx[0]
+                        if not isinstance(n, S.GraceNote) and val != F(n.end.t - n.start.t, divs):
+                            return False
+                        if not isinstance(n, S.Rest):
+                            if n.step not in tuple("CDEFGAB") or n.octave < 0 or n.alter not in (None, 0, 1, -1, 2, -2):
+                                return False
+                    if len(it) > 1:
+                        if any(isinstance(n, (S.Rest, S.GraceNote)) or (n.end.t - n.start.t) != (it[-1].end.t - it[-1].start.t) for n in it):
+                            return False
+                    if not isinstance(it[0], S.GraceNote):
+                        cur += it[-1].end.t - it[-1].start.t
+                ends.append(cur)
+        if any(e > b for e in ends) or b not in ends:
+            return False
+    return True
+
+
+
+def f_ev(e, keep_ids=("note", "rest")):
+    if e[0] == "C":
+        return "C"
+    attrs = [(k, v) for (k, v) in e[2] if k != "xml:id" or e[1] in keep_ids]
+    return W.f_tuple("O", W.s(e[1]), W.f_list(lambda kv: W.f_tuple(W.s(kv[0]), W.s(kv[1])), attrs))
+
+
 # ============================================================================ exporter round trips
 TYPE_OF_V = {-1: "long", 0: "breve", 1: "whole", 2: "half", 4: "quarter", 8: "eighth", 16: "16th", 32: "32nd",
              64: "64th", 128: "128th", 256: "256th"}
@@ -1452,7 +1587,8 @@ def build_part(asc, with_tuplets=True, with_rests=True, xopt=None):
                 pos = t0
                 evs = mm
                 if evs is None:
-                    evs = [{"t": "r", "v": v, "d": d, "tup": None} for (v, d) in rest_fill(lens[m])] if (with_rests or vi == 0) else []
+                    fill = (with_rests or vi == 0) and not (xopt.get("silent_staff") == si and len(asc["staves"]) > 1)
+                    evs = [{"t": "r", "v": v, "d": d, "tup": None} for (v, d) in rest_fill(lens[m])] if fill else []
                     prev = []
                 tup_open = None   # (tg, first object, last object, tup)
                 for e in evs:
@@ -1599,6 +1735,28 @@ def eval_export(d):
             tx = impl_texts(infos, "kern")
             for what in ("notes", "joined", "meas", "sigs"):
                 ev.requests.append(kern_request(what, text))
+                ev.impl.append(tx[what])
+        else:
+            mt = mpart_tokens(part)
+            evs = mei_events(open(path, "rb").read())
+            if mt is not None:
+                pf = part_facts(part)
+                pool = list(got)
+                miss = []
+                for f in pf:
+                    if f in pool:
+                        pool.remove(f)
+                    else:
+                        miss.append(f)
+                exp_ok = py_mei_exportable(part)
+                ev.requests += ["wmei evs " + mt, "wmei exportable " + mt, "wmei facts " + mt, "wmei missing " + mt]
+                ev.impl += [W.f_list(f_ev, evs), "1" if exp_ok else "0", W.f_list(f_fact, pf), W.f_list(f_fact, miss)]
+                if not exp_ok and not d.get("nonexp"):
+                    ev.oracle.append("generator: the part built for the MEI writer is not exportable (harness error)")
+            tx = impl_texts(infos, "mei")
+            tx["ppq"] = W.f_list(lambda i: W.f_rat(i["divs"]), infos)
+            for what in ("notes", "joined", "meas", "sigs", "ppq"):
+                ev.requests.append(mei_request(what, evs))
                 ev.impl.append(tx[what])
     finally:
         try:
@@ -1873,9 +2031,17 @@ def cases(rng, tier):
                     "keychg": {str(m): r.randint(-7, 7) for m in range(1, n_measures(asc)) if r.random() < 0.3},
                     "first_number": r.choice([0, 0, 0, 9]), "divmul": r.choice([1, 1, 1, 2, 3])}
             dd = {"k": kind, "asc": asc, "seed": seed, "rests": True if kind == "xkern" else r.random() < 0.6, "xopt": xopt}
-            if kind == "xkern" and r.random() < 0.12:
+            if r.random() < 0.12:
                 xopt["wrongdur"] = r.randrange(1000)
                 dd["nonexp"] = True       # outside the writers' domain: only model = code is compared, nothing is demanded
+            if kind == "xmei" and r.random() < 0.3:
+                # a staff without even a rest where it is silent (when there is another staff to fill the measure)
+                xopt["silent_staff"] = r.randrange(len(asc["staves"]))
+                if len(asc["staves"]) > 1:
+                    mi = r.randrange(n_measures(asc))
+                    for v in asc["staves"][xopt["silent_staff"]]["voices"]:
+                        v[mi] = None
+                    untie_last(asc)
             yield dd
 
 
